@@ -12,6 +12,8 @@ Panic-freedom over all inputs needs value reasoning; decided are the structural 
                     and contains no unwrap/expect/panic                                          [T6]
   C12.errors        Worker::advance_work / apply_rules / bundle convert parse, rule and bundle
                     errors into DarkluaError values (context added), never unwrap them           [T7]
+  C12.slice         no panicking string slicing `s[a..b]` in library code (zero-count rule with a
+                    positive control)                                                             [T5]
 A census of panic sites in the library is recorded in the evidence (informational).
 """
 from .. import walkers, thir, mir
@@ -198,6 +200,44 @@ def worker_errors(R, ctx):
             R.ob(rid, "%s|%s" % (p.split("::")[-1], c), c in names, ctx.where(f), "error constructor DarkluaError::%s %s" % (c, "used" if c in names else "NOT used"))
 
 
+def is_str_slice(lib, x):
+    """`s[a..b]` on a str/String: an overloaded Index::index call whose receiver is a string."""
+    if x.get("k") == "Call" and (x.get("fn") or "").endswith("ops::index::Index::index") and x.get("args"):
+        ts = lib.ty_str(lib.strip_refs(x["args"][0]["t"]))
+        return ts in ("str", "alloc::string::String")
+    if x.get("k") == "Index":
+        ts = lib.ty_str(lib.strip_refs(x["e"]["t"]))
+        return ts in ("str", "alloc::string::String")
+    return False
+
+
+def str_slices(R, ctx):
+    rid = "C12.slice"
+    lib = ctx.lib
+    R.rule(rid, "library code never slices a string with `s[a..b]` (panics when an offset is not a char boundary or out of range: multi-byte "
+                "characters in comments/strings reach these paths); the fallible `.get(a..b)` is used instead. Expected count: zero; the detector "
+                "is exercised on a synthetic node at every run")
+    # positive control for a zero-count rule
+    synthetic = {"k": "Call", "fn": "core::ops::index::Index::index", "fname": "index", "op": True, "args": [{"k": "Var", "t": None}]}
+    str_ty = next((i for i, t in enumerate(lib.types) if t.get("prim") == "str"), None)
+    R.require(rid, "detector|anchor:str-type", str_ty is not None, "", "type `str` not found in facts")
+    if str_ty is not None:
+        synthetic["args"][0]["t"] = str_ty
+        R.ob(rid, "detector|fires-on-synthetic-slice", is_str_slice(lib, synthetic), "", "positive control", nontrivial=False)
+    n_fn = 0
+    for f in lib.fn_list:
+        b = thir.body_of(f)
+        if not b or "::test" in f["path"]:
+            continue
+        n_fn += 1
+        for x in thir.walk(b):
+            if is_str_slice(lib, x):
+                R.ob(rid, "%s|str-slice" % facts_norm(f["path"]), False, ctx.where(f, x.get("ln")),
+                     "string sliced with `[..]`: panics on a non-boundary offset (e.g. a multi-byte character before it); use .get(..)")
+    R.ob(rid, "no-string-slicing", True, "", "%d functions scanned" % n_fn)
+    R.meta["functions_scanned_for_str_slices"] = n_fn
+
+
 def census(R, ctx):
     lib = ctx.lib
     n = {}
@@ -224,4 +264,5 @@ def run(R, ctx):
     no_recursion(R, ctx)
     parse_values(R, ctx)
     worker_errors(R, ctx)
+    str_slices(R, ctx)
     census(R, ctx)
